@@ -47,6 +47,7 @@ type VC struct {
 	modCache     map[string][]modTarget
 	concreteTags []string
 	cover        string
+	axiomsUsed   []string
 	coverIdx     int
 	mods         map[*ssa.BasicBlock]map[string]bool // loop header -> components written in the loop (from the discovery pass)
 }
@@ -70,6 +71,10 @@ func (vc *VC) prelude() {
 		"(assert (forall ((x Int) (k Int)) (! (and (isSub (sub x k)) (= (subOf (sub x k)) x) (= (subIdx (sub x k)) k) (= (rootOf (sub x k)) (rootOf x)) (not (= (sub x k) 0))) :pattern ((sub x k)))))",
 		"(assert (forall ((x Int)) (! (=> (not (isSub x)) (= (rootOf x) x)) :pattern ((rootOf x)))))",
 		"(assert (not (isSub 0)))",
+		// element addressing: ix(off,i) = off+i, kept as an uninterpreted symbol so that quantifier patterns over
+		// slice elements are not destroyed by arithmetic normalisation
+		"(declare-fun ix (Int Int) Int)",
+		"(assert (forall ((o Int) (i Int)) (! (= (ix o i) (+ o i)) :pattern ((ix o i)))))",
 	)
 }
 
@@ -323,6 +328,7 @@ type Exec struct {
 	entryReach string
 	rangeIters map[*ssa.Range]*rangeIter
 	panicsWhen string // entry-state term: documented panic condition
+	ghostLoop  *Loop
 }
 
 func (vc *VC) newExec(fn *ssa.Function, ts TSubst, parent *Exec) *Exec {
@@ -711,7 +717,9 @@ func (ex *Exec) nopanic(kind string, pos token.Pos, cond, info string) {
 	}
 	ex.vc.oblige(kind, "", pos, ex.curReach, goal, info)
 	// after the check execution continues only if cond holds
-	ex.vc.assume(sImp(ex.curReach, cond))
+	if goal != cond {
+		ex.vc.assume(sImp(ex.curReach, cond))
+	}
 }
 
 func (ex *Exec) instr(ins ssa.Instruction) {
@@ -779,6 +787,32 @@ func (ex *Exec) instr(ins ssa.Instruction) {
 		ex.vals[i] = ex.val(i.X)
 	case *ssa.Convert:
 		ex.doConvert(i)
+	case *ssa.MultiConvert:
+		// conversion to/from a type parameter: every member of the type set converts the same way in the model
+		from, to := ex.typ(i.X.Type()), ex.typ(i.Type())
+		switch {
+		case ex.isNumeric(from) && ex.isNumeric(to) && ex.sortOfT(from) == ex.sortOfT(to):
+			ex.vals[i] = ex.val(i.X)
+		case ex.isStringy(from) && ex.isStringy(to):
+			ex.vals[i] = ex.val(i.X)
+		case ex.isStringy(to) && ex.isNumeric(from):
+			ex.bind(i, ex.vc.strFromRune(ex.val(i.X).T))
+		case ex.isStringy(to):
+			if sl, ok := from.Underlying().(*types.Slice); ok {
+				ex.bind(i, ex.strFromSlice(ex.val(i.X).T, sl))
+			} else {
+				ex.vc.errorf("unsupported multi-conversion %s -> %s", from, to)
+			}
+		case ex.isStringy(from):
+			if sl, ok := to.Underlying().(*types.Slice); ok {
+				ex.bind(i, ex.sliceFromStr(ex.val(i.X).T, sl))
+			} else {
+				ex.vc.errorf("unsupported multi-conversion %s -> %s", from, to)
+			}
+		default:
+			ex.vc.errorf("unsupported multi-conversion %s -> %s at %s", from, to, ex.vc.w.pos(i.Pos()))
+			ex.vals[i] = Val{T: ex.vc.fresh(ex.pfx+i.Name(), ex.sortOfT(i.Type()))}
+		}
 	case *ssa.MakeInterface:
 		ex.doMakeInterface(i)
 	case *ssa.ChangeInterface:
@@ -1019,7 +1053,7 @@ func (ex *Exec) doIndexAddr(i *ssa.IndexAddr) {
 	switch t := xt.(type) {
 	case *types.Slice:
 		ex.nopanic("nopanic.index", i.Pos(), sAnd("(<= 0 "+idx.T+")", "(< "+idx.T+" (slen_ "+x.T+"))"), "slice index in range")
-		at := "(+ (soff " + x.T + ") " + idx.T + ")"
+		at := "(ix (soff " + x.T + ") " + idx.T + ")"
 		if isStructType(t.Elem()) {
 			ex.vals[i] = Val{T: "(sub (sarr " + x.T + ") " + at + ")"}
 			return
